@@ -316,6 +316,13 @@ def check(fx, rep, tier):
             tail = then["block"].get("expr")
             n_stmt = sum(1 for st in stmts if st.get("s") != "Let") + (1 if tail is not None else 0)
             rep.oblige(n_stmt == 1, "R13.2", f"stop-only:{key_base}", F.loc(then["span"]), "the stop branch does more than raise the stop error")
+        # the stop branch itself cannot crash: where it looks up the value of a type variable to locate the error, every type
+        # variable has a value (the verified state invariant of C01)
+        if any(c.get("k") == "MethodCall" and (c.get("def") or "").startswith("tc::state::TypeCheckerState::value") for c, _ in F.calls(then)):
+            from .c01 import state_invariant_holds
+
+            ok_inv, why_inv = state_invariant_holds(fx)
+            rep.oblige(ok_inv, "R13.2", f"stop-cannot-panic:{key_base}", F.loc(then["span"]), f"the stop branch of `{b['def']}` looks up the value of a type variable to locate its error, and not every type variable has a value: {why_inv} - a stop on such a variable panics instead of returning the stopped-by-watchdog error", sample={"rule": "R13.2", "fn": b["def"], "lookup": "value_unchecked"})
 
     # ---------------------------------------------------------------- R13.4 (named long-running loops poll)
     WORK = {
